@@ -853,6 +853,15 @@ func (e *MetaCDC) startInternal(info *meta.TaskInfo, ignoreUpdateState bool) err
 	if err != nil {
 		return err
 	}
+	// the task takes its share of the replicate entity only after the state update has succeeded,
+	// a start that fails here does not hold a reference
+	if !ignoreUpdateState {
+		err = store.UpdateTaskState(e.metaStoreFactory.GetTaskInfoMetaStore(ctx), info.TaskID, meta.TaskStateRunning, []meta.TaskState{meta.TaskStateInitial, meta.TaskStatePaused}, "")
+		if err != nil {
+			taskLog.Warn("fail to update the task meta", zap.Error(err))
+			return servererror.NewServerError(errors.WithMessage(err, "fail to update the task meta, task_id: "+info.TaskID))
+		}
+	}
 	readCtx, cancelReadFunc := context.WithCancel(log.WithTraceID(context.Background(), info.TaskID))
 	replicateEntity.taskQuitFuncs.Insert(info.TaskID, func() {
 		collectionReader.QuitRead(readCtx)
@@ -861,14 +870,6 @@ func (e *MetaCDC) startInternal(info *meta.TaskInfo, ignoreUpdateState bool) err
 	})
 	replicateEntity.refCnt.Inc()
 	replicateEntity.UpdateMapping(GetCollectionMappingFromTaskInfo(info))
-
-	if !ignoreUpdateState {
-		err = store.UpdateTaskState(e.metaStoreFactory.GetTaskInfoMetaStore(ctx), info.TaskID, meta.TaskStateRunning, []meta.TaskState{meta.TaskStateInitial, meta.TaskStatePaused}, "")
-		if err != nil {
-			taskLog.Warn("fail to update the task meta", zap.Error(err))
-			return servererror.NewServerError(errors.WithMessage(err, "fail to update the task meta, task_id: "+info.TaskID))
-		}
-	}
 	e.cdcTasks.Lock()
 	info.State = meta.TaskStateRunning
 	info.Reason = ""
